@@ -223,7 +223,8 @@ func (r *Runner) expandErr(err error) {
 	case errMsg == "invalid indirect expansion":
 		// TODO: These errors are treated as fatal by bash.
 		// Make the error type reflect that.
-	case errMsg == "division by zero", errMsg == "exponent less than 0":
+	case errMsg == "division by zero", errMsg == "exponent less than 0",
+		strings.HasSuffix(errMsg, "substring expression < 0"):
 		// Like in Bash, arithmetic errors fail the command without exiting.
 		r.exit.code = 1
 		return
